@@ -12,6 +12,12 @@ mod vectors;
 use crate::core::*;
 use serde_json::{json, Value};
 use std::io::{BufRead, BufReader, Write};
+use std::sync::atomic::{AtomicBool, AtomicU64, Ordering};
+
+/// seconds without progress on one line / vector / driver call after which the call is reported as a hang
+pub fn hang_limit() -> u64 {
+    std::env::var("HARNESS_HANG_SECS").ok().and_then(|v| v.parse().ok()).unwrap_or(120)
+}
 
 fn replay<E: Engine>(dump: &str, out: &str, known: &Known, opts: ReplayOpts) {
     let f = std::fs::File::open(dump).expect("dump file");
@@ -20,25 +26,70 @@ fn replay<E: Engine>(dump: &str, out: &str, known: &Known, opts: ReplayOpts) {
     let nthreads: usize = std::env::var("HARNESS_THREADS").ok().and_then(|v| v.parse().ok()).unwrap_or(8).max(1);
     let chunk = (lines.len() + nthreads - 1) / nthreads.max(1);
     let mut parts: Vec<(Report, std::collections::HashMap<String, ConvEntry>, u64)> = vec![];
+    // watchdog: a library call that does not return is an observation ("hang"), not a tool failure.  Each worker
+    // publishes the index of the line it is replaying; a line normally takes micro- to milliseconds.
+    let nparts = (lines.len() + chunk.max(1) - 1) / chunk.max(1);
+    let cur: Vec<AtomicU64> = (0..nparts).map(|_| AtomicU64::new(u64::MAX)).collect();
+    let stop = AtomicBool::new(false);
+    let hang_secs = hang_limit();
     std::thread::scope(|sc| {
         let mut hs = vec![];
-        for part in lines.chunks(chunk.max(1)) {
+        for (ti, part) in lines.chunks(chunk.max(1)).enumerate() {
             let o = opts.clone();
+            let cur = &cur;
             hs.push(sc.spawn(move || {
                 let mut rp: Replayer<E> = Replayer::new(known, o);
                 let mut bad = 0u64;
-                for line in part {
+                for (li, line) in part.iter().enumerate() {
+                    cur[ti].store((ti * chunk.max(1) + li) as u64, Ordering::Relaxed);
                     match parse_dump_line(line) {
-                        Some(v) => rp.line(&v),
+                        Some(v) => {
+                            // a panic that escapes the per-call guards (a read of the replica, an obligation) is the library's
+                            if let Err(e) = crate::core::catch(|| rp.line(&v)) {
+                                rp.rep.add("violation", &[E::semantic_prop()], E::NAME, "panic", json!(format!("PANIC while reading the replica after this history: {}", e)),
+                                           json!("no panic"), Value::Null, &v["h"], Value::Null);
+                            }
+                        }
                         None => bad += 1,
                     }
                 }
+                cur[ti].store(u64::MAX, Ordering::Relaxed);
                 (rp.rep, rp.conv, bad)
             }));
         }
+        let (cur, stop, lines) = (&cur, &stop, &lines);
+        sc.spawn(move || {
+            let mut seen: Vec<(u64, std::time::Instant)> = cur.iter().map(|c| (c.load(Ordering::Relaxed), std::time::Instant::now())).collect();
+            while !stop.load(Ordering::Relaxed) {
+                std::thread::sleep(std::time::Duration::from_millis(500));
+                for (i, c) in cur.iter().enumerate() {
+                    let v = c.load(Ordering::Relaxed);
+                    if v != seen[i].0 {
+                        seen[i] = (v, std::time::Instant::now());
+                    } else if v != u64::MAX && seen[i].1.elapsed().as_secs() >= hang_secs {
+                        let h = parse_dump_line(&lines[v as usize]).map(|l| l["h"].clone()).unwrap_or(Value::Null);
+                        let mut rep = Report::default();
+                        rep.add("violation", &[E::semantic_prop(), "C01"], E::NAME, "hang",
+                                json!(format!("a call made while replaying this history did not return within {} s", hang_secs)),
+                                json!("every call returns"), Value::Null, &h, Value::Null);
+                        for r in rep.records.iter_mut() {
+                            r["replay_flags"] = json!(std::env::args().skip(6).collect::<Vec<String>>());
+                            r["harness_engine"] = json!(std::env::args().nth(2).unwrap_or_default());
+                        }
+                        let mut o = rep.to_json();
+                        o["engine"] = json!(E::NAME);
+                        o["conv_classes"] = json!(0);
+                        o["hang"] = json!(true);
+                        std::fs::write(out, serde_json::to_string_pretty(&o).unwrap()).expect("out file");
+                        std::process::exit(0);
+                    }
+                }
+            }
+        });
         for h in hs {
             parts.push(h.join().expect("replay thread"));
         }
+        stop.store(true, Ordering::Relaxed);
     });
     // merge the per-thread reports; equal-knowledge classes are compared across threads too
     let mut total = Report::default();
@@ -118,20 +169,61 @@ fn vectors(kind: &str, dump: &str, out: &str, known: &Known) {
     let f = std::fs::File::open(dump).expect("dump file");
     let rd = BufReader::with_capacity(1 << 20, f);
     let mut rep = Report::default();
+    // watchdog (see replay): the current vector is published before the library is called on it
+    let curv: std::sync::Arc<std::sync::Mutex<(u64, String)>> = std::sync::Arc::new(std::sync::Mutex::new((0, String::new())));
+    {
+        let (curv, kind, out) = (curv.clone(), kind.to_string(), out.to_string());
+        let hang_secs = hang_limit();
+        std::thread::spawn(move || {
+            let mut seen = (0u64, std::time::Instant::now());
+            loop {
+                std::thread::sleep(std::time::Duration::from_millis(500));
+                let (n, line) = { let g = curv.lock().unwrap(); (g.0, g.1.clone()) };
+                if n != seen.0 {
+                    seen = (n, std::time::Instant::now());
+                } else if n != 0 && seen.1.elapsed().as_secs() >= hang_secs {
+                    let h = parse_dump_line(&line).unwrap_or(Value::Null);
+                    let mut rep = Report::default();
+                    let prop = if kind == "clocks" { "C10" } else { "C14" };
+                    rep.add("violation", &[prop], &kind, "hang",
+                            json!(format!("a call on this vector did not return within {} s", hang_secs)), json!("every call returns"), Value::Null, &h, Value::Null);
+                    let mut o = rep.to_json();
+                    o["engine"] = json!(kind);
+                    o["conv_classes"] = json!(0);
+                    o["hang"] = json!(true);
+                    std::fs::write(&out, serde_json::to_string_pretty(&o).unwrap()).expect("out file");
+                    std::process::exit(0);
+                }
+            }
+        });
+    }
     for line in rd.lines() {
         let line = line.expect("read");
         if !line.starts_with("<<\"E\"") {
             continue;
         }
+        {
+            let mut g = curv.lock().unwrap();
+            g.0 += 1;
+            g.1.clear();
+            g.1.push_str(&line);
+        }
         match parse_dump_line(&line) {
-            Some(v) => match kind {
-                "clocks" => vectors::clocks_line(&v, &mut rep, known),
-                "ident" => vectors::ident_line(&v, &mut rep, known),
-                _ => panic!("unknown vector engine"),
-            },
+            Some(v) => {
+                let r = crate::core::catch(|| match kind {
+                    "clocks" => vectors::clocks_line(&v, &mut rep, known),
+                    "ident" => vectors::ident_line(&v, &mut rep, known),
+                    _ => panic!("unknown vector engine"),
+                });
+                if let Err(e) = r {
+                    rep.add("violation", &[if kind == "clocks" { "C10" } else { "C14" }], kind, "panic", json!(format!("PANIC on this vector: {}", e)),
+                            json!("no panic"), Value::Null, &v, Value::Null);
+                }
+            }
             None => rep.errors.push("unparsable line".into()),
         }
     }
+    curv.lock().unwrap().0 = 0; // done: the watchdog stands down
     let mut o = rep.to_json();
     o["engine"] = json!(kind);
     o["conv_classes"] = json!(0);
